@@ -144,8 +144,80 @@ func newMulti(kind string, l geom.Layout) multi {
 var c02Kinds = []string{"poly", "mls", "mpoint", "mpoly"}
 var c02Layouts = []geom.Layout{geom.XY, geom.XYZ, geom.XYM, geom.XYZM, 5, 6}
 
+// ---- GeometryCollection histories: variadic Push, SetLayout, Layout, NumGeoms, Geom, Geoms ----
+
+func sxMember(g geom.T) string {
+	return fmt.Sprintf("(%d %s)", int(g.Layout()), sxCoord(g.FlatCoords()))
+}
+
+func genC02Coll(r *Rng, e *Emitter) {
+	layouts := []geom.Layout{geom.XY, geom.XYZ, geom.XYM, geom.XYZM}
+	pref := layouts[r.Intn(4)]
+	gc := geom.NewGeometryCollection()
+	length := 1 + r.Intn(30)
+	var ops, obs []string
+	member := func() geom.T {
+		l := pref
+		if r.chance(1, 5) {
+			l = layouts[r.Intn(4)]
+		}
+		if r.chance(1, 2) {
+			return geom.NewPointFlat(l, r.genCoord(l.Stride()))
+		}
+		return geom.NewLineStringFlat(l, flatOf(r.partCoords1(l.Stride())))
+	}
+	for i := 0; i < length; i++ {
+		switch c := r.Intn(20); {
+		case c < 8:
+			k := r.Intn(4)
+			gs := make([]geom.T, k)
+			parts := make([]string, k)
+			for j := range gs {
+				gs[j] = member()
+				parts[j] = sxMember(gs[j])
+			}
+			ops = append(ops, "(push "+strings.Join(parts, " ")+")")
+			obs = append(obs, guard(func() string { return pushRes(gc.Push(gs...)) }))
+			e.tally(fmt.Sprintf("op=gc-push-%d", k))
+		case c < 11:
+			l := pref
+			if r.chance(1, 3) {
+				l = layouts[r.Intn(4)]
+			}
+			if r.chance(1, 8) {
+				l = geom.NoLayout
+			}
+			ops = append(ops, fmt.Sprintf("(setlayout %d)", int(l)))
+			obs = append(obs, guard(func() string { return pushRes(gc.SetLayout(l)) }))
+			e.tally("op=gc-setlayout")
+		case c < 13:
+			ops = append(ops, "layout")
+			obs = append(obs, fmt.Sprint(int(gc.Layout())))
+		case c < 15:
+			ops = append(ops, "num")
+			obs = append(obs, fmt.Sprint(gc.NumGeoms()))
+		case c < 17:
+			ops = append(ops, "geoms")
+			obs = append(obs, sxList(gc.Geoms(), sxMember))
+		default:
+			i := r.Intn(gc.NumGeoms() + 1)
+			if gc.NumGeoms() > 0 && !r.chance(1, 10) {
+				i = r.Intn(gc.NumGeoms())
+			}
+			ops = append(ops, fmt.Sprintf("(geom %d)", i))
+			obs = append(obs, guard(func() string { return "(ok " + sxMember(gc.Geom(i)) + ")" }))
+		}
+	}
+	e.tally("type=gc")
+	e.emit("C02.hist.gc", "("+strings.Join(ops, " ")+")", "("+strings.Join(obs, " ")+")")
+}
+
 func genC02(r *Rng, e *Emitter, n int) {
 	for h := 0; h < n; h++ {
+		if r.chance(1, 5) {
+			genC02Coll(r, e)
+			continue
+		}
 		kind := c02Kinds[r.Intn(len(c02Kinds))]
 		l := c02Layouts[r.Intn(len(c02Layouts))]
 		if r.chance(1, 40) {
